@@ -227,18 +227,28 @@ def run_ppar(case):
     from sc3.seq import event as evt
     try:
         pp = Ppar(*[Pbind({'delta': Pseq([d / 8.0 for d in ds]), 'child': i}) for i, ds in enumerate(case['rem'])])
-        s = stm.stream(pp)
-        out = []
-        for _ in range(sum(len(d) for d in case['rem']) + 3 * len(case['rem']) + 5):
-            try:
-                e = s.next(evt.event({}))
-            except stm.StopStream:
+        # two streams of the SAME pattern object, consumed alternately: each is the whole merge
+        streams = [stm.stream(pp), stm.stream(pp)]
+        outs = [[], []]
+        live = [True, True]
+        for _ in range(2 * (sum(len(d) for d in case['rem']) + 3 * len(case['rem']) + 5)):
+            if not any(live):
                 break
-            who = 'r' if evt.is_rest(e) else str(e.get('child'))
-            out.append(f'{who}:{int(round(float(e["delta"]) * 8))}')
+            for k in (0, 1):
+                if not live[k]:
+                    continue
+                try:
+                    e = streams[k].next(evt.event({}))
+                except stm.StopStream:
+                    live[k] = False
+                    continue
+                who = 'r' if evt.is_rest(e) else str(e.get('child'))
+                outs[k].append(f'{who}:{int(round(float(e["delta"]) * 8))}')
         else:
-            out.append('RUNAWAY')
-        return ['merge ' + ' '.join(out)]
+            outs[0].append('RUNAWAY')
+        if outs[0] != outs[1]:
+            return ['merge ' + ' '.join(outs[0]) + ' BUT-SECOND-STREAM ' + ' '.join(outs[1])]
+        return ['merge ' + ' '.join(outs[0])]
     except Exception as e:
         return [f'EXC:{type(e).__name__}: {e}'[:200]]
 
